@@ -646,6 +646,36 @@ def gen_ranges(rng, nlines, count):
     return out
 
 
+def offset_of(text, line, col):
+    """Python index of the LSP position (line, UTF-16 column) in `text`, clamped into the document like a client does."""
+    starts = [0]
+    for m in LINE_SPLIT.finditer(text):
+        starts.append(m.end())
+    if line >= len(starts):
+        return len(text)
+    i = starts[line]
+    m = LINE_SPLIT.search(text, i)
+    end = m.start() if m else len(text)
+    u = 0
+    while i < end and u < col:
+        u += 2 if ord(text[i]) >= 0x10000 else 1
+        i += 1
+    return i
+
+
+def client_apply(text, changes):
+    """The document the CLIENT holds after one didChange notification: the content changes applied in the listed
+    order, each to the result of the previous one, as plain-string splices (LSP specification)."""
+    for ch in changes:
+        if ch.get("range") is None:
+            text = ch["text"]
+        else:
+            l1, c1, l2, c2 = ch["range"]
+            a, b = offset_of(text, l1, c1), offset_of(text, l2, c2)
+            text = text[:a] + ch["text"] + text[max(a, b):]
+    return text
+
+
 def det_ranges(toks, nlines):
     """Ranges derived from the full answer, asked for every file: the line of the first token alone, from the middle
     token's line to the last token's line (the tokens before it are filtered out: the delta encoding must restart from
@@ -720,13 +750,31 @@ def run_session(spec, tools, res, stats, sess_rng):
     texts = materialise(spec, root)            # abs path -> text the server holds
     nranges = spec.get("nranges", 10)
 
-    # ---- harness (vhdl_lang::Project on the same workspace)
-    hsteps = []
+    # ---- the client's view: text of the edited file after every step (batched ranged changes are spliced in listed order)
+    client = dict(texts)
+    step_text = []
     for st in spec["steps"]:
+        ed = st.get("edit")
+        t = None
+        if ed:
+            p = abs_of(root, ed["file"])
+            if "changes" in ed:
+                t = client_apply(client.get(p, ""), ed["changes"])
+            else:
+                t = spec_text(ed["spec"])
+            client[p] = t
+        for rel, fs in (st.get("disk") or {}).items():
+            if fs is not None and abs_of(root, rel) not in client:
+                client[abs_of(root, rel)] = server_text_of_disk(disk_bytes(spec_text(fs)))
+        step_text.append(t)
+
+    # ---- harness (vhdl_lang::Project on the same workspace, holding the client's text)
+    hsteps = []
+    for si0, st in enumerate(spec["steps"]):
         ed = st.get("edit")
         hed = None
         if ed:
-            hed = {"file": abs_of(root, ed["file"]), "text": spec_text(ed["spec"])}
+            hed = {"file": abs_of(root, ed["file"]), "text": step_text[si0]}
         disk = []
         for rel, fs in (st.get("disk") or {}).items():
             if fs is None:
@@ -821,8 +869,28 @@ def run_session(spec, tools, res, stats, sess_rng):
             ed = st.get("edit")
             if ed:
                 p = abs_of(root, ed["file"])
-                t = spec_text(ed["spec"])
-                if p not in opened:
+                t = step_text[si]
+                if "changes" in ed:
+                    # ONE didChange notification carrying several incremental content changes
+                    if p not in opened:
+                        opened[p] = 1
+                        ls.notify("textDocument/didOpen", {"textDocument": {"uri": L.uri(p), "languageId": "vhdl",
+                                                                            "version": 1, "text": texts.get(p, "")}})
+                    opened[p] += 1
+                    cc = []
+                    for ch in ed["changes"]:
+                        if ch.get("range") is None:
+                            cc.append({"text": ch["text"]})
+                        else:
+                            r0 = ch["range"]
+                            cc.append({"range": {"start": {"line": r0[0], "character": r0[1]},
+                                                 "end": {"line": r0[2], "character": r0[3]}}, "text": ch["text"]})
+                    ls.notify("textDocument/didChange", {"textDocument": {"uri": L.uri(p), "version": opened[p]},
+                                                         "contentChanges": cc})
+                    stats["batched_changes"] += 1
+                    if client_apply(texts.get(p, ""), list(reversed(ed["changes"]))) != t:
+                        stats["batched_changes_order_matters"] += 1
+                elif p not in opened:
                     opened[p] = 1
                     ls.notify("textDocument/didOpen", {"textDocument": {"uri": L.uri(p), "languageId": "vhdl",
                                                                         "version": 1, "text": t}})
@@ -998,6 +1066,9 @@ def run_session(spec, tools, res, stats, sess_rng):
             # the answers after the last reload must be those of a fresh server on the same workspace state
             fl = L.LS(tools.lsbin, root)
             fl.initialize(caps=caps)
+            for p in sorted(opened):
+                fl.notify("textDocument/didOpen", {"textDocument": {"uri": L.uri(p), "languageId": "vhdl", "version": 1,
+                                                                    "text": texts[p]}})
             si = len(spec["steps"]) - 1
             for f in spec["steps"][-1]["query"]:
                 p = abs_of(root, f)
@@ -1006,8 +1077,8 @@ def run_session(spec, tools, res, stats, sess_rng):
                 stats["fresh_compared"] += 1
                 if (ft or []) != (last_answer.get(p) or []):
                     make_report(si, f, texts.get(p, ""), [])(
-                        "semanticTokens/full after a project reload differs from the answer of a fresh server on the same "
-                        "workspace (stale tokens of the previous project state): %d tokens vs %d fresh" %
+                        "semanticTokens/full differs from the answer of a fresh server on the same workspace and the client's "
+                        "current text (the server's project state or text is not the current one): %d tokens vs %d fresh" %
                         (len(last_answer.get(p) or []), len(ft or [])),
                         {"request": "full", "after_reload_head": (last_answer.get(p) or [])[:20], "fresh_head": (ft or [])[:20]})
             fl.shutdown()
@@ -1117,6 +1188,8 @@ def corpus_sessions():
         steps = [{"edit": None, "query": c.get("query", sorted(files))}]
         for e in c.get("edits", []):
             steps.append({"edit": {"file": e["file"], "spec": {"text": e["text"]}}, "query": e.get("query", [e["file"]])})
+        for b in c.get("batches", []):
+            steps.append({"edit": {"file": b["file"], "changes": b["changes"]}, "query": b.get("query", [b["file"]])})
         for st in c.get("steps", []):
             steps.append({"disk": {k: (None if v is None else {"text": v}) for k, v in (st.get("disk") or {}).items()},
                           "toml": st.get("toml"), "notify": st.get("notify"), "edit": None, "query": st["query"]})
@@ -1202,6 +1275,82 @@ def session_generated(rng, name, n_proj, n_edit, hier=True, nranges=10):
         ops = random_ops(rng, base)
         steps.append({"edit": {"file": f, "spec": {"text": apply_ops(base, ops)}}, "query": [f, rng.choice(names)]})
     return {"name": name, "toml": "\n".join(toml) + "\n", "files": files, "steps": steps, "nranges": nranges, "hier": hier}
+
+
+def pos_of(text, i):
+    """(line, column) of python index i; for LF-only texts without astral characters."""
+    line = text.count("\n", 0, i)
+    return line, i - (text.rfind("\n", 0, i) + 1)
+
+
+BATCH_INSERTS = ["  -- inserted\n", "\n", "  signal extra_s : bit;\n", "x", " ", "-- a\n-- b\n", "(", "end", "  null;\n    null;\n"]
+
+
+def gen_batch(rng, text):
+    """2-4 incremental changes of ONE didChange notification, valid in the listed order: bottom-up (multi-cursor: every
+    change lies before the previous one, original coordinates), top-down (later ranges in post-edit coordinates, after
+    the previous change) or unordered; insert / delete / replace, single- and multi-line, ranges that interact."""
+    mode = rng.choice(["bottom_up", "top_down", "top_down", "random"])
+    cur = text
+    lo, hi = 0, len(cur)            # region of `cur` the next change is taken from
+    changes = []
+    for _ in range(rng.choice([2, 2, 3, 4])):
+        toks = [m for m in TOKEN_RE.finditer(cur) if lo <= m.start() and m.end() <= hi]
+        kind = rng.choice(["ins_line", "ins_line", "ins", "del_tok", "repl_tok", "repl_tok", "del_lines", "repl_multi"])
+        if not toks:
+            kind = "ins"
+        if kind == "ins_line":
+            m = rng.choice(toks)
+            a = b = cur.rfind("\n", 0, m.start()) + 1
+            if a < lo:
+                a = b = m.start()
+            new = rng.choice(BATCH_INSERTS[:3] + BATCH_INSERTS[5:6])
+        elif kind == "ins":
+            a = b = rng.choice(toks).start() if toks else rng.randrange(lo, hi + 1)
+            new = rng.choice(BATCH_INSERTS)
+        elif kind == "del_tok":
+            m = rng.choice(toks)
+            a, b, new = m.start(), m.end(), ""
+        elif kind == "repl_tok":
+            m = rng.choice(toks)
+            a, b = m.start(), m.end()
+            new = rng.choice(["renamed_%d" % rng.randrange(100), "x", "a_much_longer_identifier_than_before", "\\ext\\", "'1'", "and"])
+        else:
+            i = rng.randrange(len(toks))
+            j = min(len(toks) - 1, i + rng.choice([1, 3, 8, 20]))
+            a, b = toks[i].start(), toks[j].end()
+            new = "" if kind == "del_lines" else rng.choice(["  null;\n", "q <= d;\n  -- c\n", "\n\n\n"])
+        l1, c1 = pos_of(cur, a)
+        l2, c2 = pos_of(cur, b)
+        changes.append({"range": [l1, c1, l2, c2], "text": new})
+        cur = cur[:a] + new + cur[b:]
+        if mode == "bottom_up":
+            lo, hi = 0, a
+        elif mode == "top_down":
+            lo, hi = a + len(new), len(cur)
+        else:
+            lo, hi = 0, len(cur)
+    return changes, cur
+
+
+def session_batched(rng, name, n_steps, nranges=2):
+    """Multi-edit didChange notifications (multi-cursor edits, batched typing) on a generated project with LF line ends;
+    the oracle and the model work on the CLIENT's text; the last answers are compared with a fresh server."""
+    files = gen_project(rng, "b", wild=False)
+    names = sorted(files)
+    toml = "[libraries]\nlb.files = [%s]\n" % ", ".join("'%s'" % f for f in names)
+    cur = {f: server_text_of_disk(disk_bytes(spec_text(files[f]))) for f in names}
+    steps = [{"edit": None, "query": names}]
+    for k in range(n_steps):
+        f = rng.choice(names)
+        if rng.random() < 0.15:
+            cur[f] = server_text_of_disk(disk_bytes(spec_text(files[f])))      # back to the original, full text
+            steps.append({"edit": {"file": f, "changes": [{"range": None, "text": cur[f]}]}, "query": [f]})
+            continue
+        changes, new = gen_batch(rng, cur[f])
+        cur[f] = new
+        steps.append({"edit": {"file": f, "changes": changes}, "query": [f] if k < n_steps - 1 else names})
+    return {"name": name, "toml": toml, "files": files, "steps": steps, "nranges": nranges, "fresh_compare": True}
 
 
 def session_reload(rng, name, n_steps):
@@ -1323,7 +1472,8 @@ def new_stats():
             "hier_hyp_failures": 0, "files_with_duplicate_positions": 0, "files_with_multiline_positions": 0,
             "coq_sample": [], "samples": [], "sessions": [],
             "analysis_panics_outside_c16": [], "server_deaths_outside_c16": [],
-            "reloads": 0, "fresh_compared": 0, "reload_text_differs_from_disk": 0}
+            "reloads": 0, "fresh_compared": 0, "reload_text_differs_from_disk": 0,
+            "batched_changes": 0, "batched_changes_order_matters": 0}
 
 
 def merge_stats(into, st):
@@ -1398,6 +1548,8 @@ def main(tier, replay=None):
             go(session_libs(rng, 40, nranges=9), "libs")
             go(session_generated(rng, "generated", 6, 150, nranges=9), "generated")
             go(session_reload(rng, "reload", 40), "reload")
+            for k in range(4):
+                go(session_batched(rng, "batched%d" % k, 40, nranges=4), "batched%d" % k)
         else:
             go(session_libs(rng, 2, n_lib_files=2, nranges=2, name="libs_a", n_big=2), "libs_a")
             go(session_libs(rng, 1, n_lib_files=5, nranges=2, name="libs_b", n_big=1), "libs_b")
@@ -1406,6 +1558,7 @@ def main(tier, replay=None):
             for k in range(2):
                 go(session_mutants(rng, "mutants%d" % k, 4, 4, nranges=2), "mutants%d" % k)
             go(session_generated(rng, "generated", 1, 6, nranges=1), "generated")
+            go(session_batched(rng, "batched", 10), "batched")
         go(session_reload_disk(rng, "reload_disk"), "reload_disk")
         go(session_generated(rng, "generated_flat", 1, 5 if thorough else 2, hier=False, nranges=1), "generated_flat")
         for spec in corpus_sessions():
@@ -1440,7 +1593,10 @@ def main(tier, replay=None):
         "endings, shift) and further mutations sent by didChange; (reload) vhdl_ls.toml rewritten (file moved to another library, "
         "mapped twice, unmapped, restored) + didChangeWatchedFiles, files created/deleted + didCreateFiles/didDeleteFiles, every file "
         "queried before and after, last answers compared with a fresh server; (reload_disk) file contents shortened on disk + mapping "
-        "change + reload, oracle against the text the Project holds (harness dump). Quick tier: the corpus, a seed-dependent sample of 12 "
+        "change + reload, oracle against the text the Project holds (harness dump); (batched) didChange notifications carrying 2-4 "
+        "incremental content changes (bottom-up multi-cursor, top-down in post-edit coordinates, unordered; insert/delete/replace, "
+        "multi-line, interacting ranges): oracle and model use the CLIENT's text (changes spliced in listed order), final answers "
+        "compared with a fresh server opened on that text. Quick tier: the corpus, a seed-dependent sample of 12 "
         "bundled files (three of the six largest always), one generated project, 8 mutated groups, fewer edits/reloads; thorough: "
         "everything. Sessions run in 8 worker processes. Per file: full request; 3 line ranges derived from the answer (line of the "
         "first token; middle token's line to last token's line; inverted) + 2 (corpus 5, thorough 9) random ranges (single line, empty, "
